@@ -129,7 +129,12 @@ class PathResolver(Resolver):
         result = None
         name = parts[0]
         log.debug('searching schema for (%s)', name)
-        qref = self.qualify(parts[0])
+        try:
+            qref = self.qualify(parts[0])
+        except Exception:
+            # e.g. a namespace prefix the WSDL does not declare
+            log.error('(%s) not-found', name)
+            raise PathResolver.BadPath(name)
         query = BlindQuery(qref)
         result = query.execute(self.schema)
         if result is None:
